@@ -165,6 +165,36 @@ type RunSpec struct {
 	Attack        *Attack         `json:"attack,omitempty"`
 	Hist          *History        `json:"hist,omitempty"`
 	Ref           *RefPeer        `json:"ref,omitempty"`
+	Close         *CloseSpec      `json:"close,omitempty"`
+}
+
+// CloseSpec drives the C15 scenario: independent actors on both ends of each
+// session plus global events (stop, reset, black-hole).
+type CloseSpec struct {
+	Actors    []Actor `json:"actors"`
+	Events    []Event `json:"events,omitempty"`
+	HorizonUs int64   `json:"horizonUs"` // actors are given this long; then everything is stopped
+}
+
+type Actor struct {
+	Client  int    `json:"client"`
+	Session int    `json:"session"`
+	Side    string `json:"side"` // client | server
+	Role    string `json:"role"` // writer | reader | deadliner | closer
+	Ops     []AOp  `json:"ops"`
+}
+
+type AOp struct {
+	Op    string `json:"op"` // write | read | sleep | setdl | setrdl | setwdl | close
+	N     int    `json:"n,omitempty"`
+	Us    int64  `json:"us,omitempty"` // sleep duration / deadline offset from now (0 clears the deadline)
+	Count int    `json:"count,omitempty"`
+}
+
+type Event struct {
+	AtUs int64  `json:"atUs"`
+	Kind string `json:"kind"` // client-stop | server-stop | reset | blackhole | udp-blackhole
+	Arg  int    `json:"arg,omitempty"` // client index / connection index
 }
 
 // RefPeer configures the reference peer (written from docs/protocol.md) that
